@@ -35,7 +35,18 @@ def arr_to_hex(a):
 
 
 def hex_to_arr(d):
+    if 'entries' in d:
+        # sparse form for very wide score matrices: one fill value and a few (row, column, value) entries
+        a = numpy.full(d['shape'], d['fill'], dtype=numpy.float32)
+        for i, j, v in d['entries']:
+            a[i, j] = v
+        return a
     return numpy.frombuffer(bytes.fromhex(d['hex']), dtype=numpy.float32).reshape(d['shape']).copy()
+
+
+def arr_key(d):
+    """a short identifying string of an encoded array (for digests)"""
+    return d['hex'] if 'hex' in d else repr((d['shape'], d['fill'], d['entries']))
 
 
 def digest(obj):
@@ -179,6 +190,19 @@ def real_lexicon(rng, variant, want_pair=None, max_tags=8):
         t = str(Category.parse(rng.choice(targets)))
         if t not in inv:
             inv.append(t)
+    if lang == 'en' and rng.random() < 0.3:
+        # feature twins: next to a category that carries the variable feature [X] (lexical, or the target of a shipped
+        # unary rule for a category of the inventory, e.g. the type-raised S[X]/(S[X]\NP)) its X-less twin as a lexical
+        # category, as gold CCGbank lexicons have it (S/(S\NP)).  The two combine with the same partners into
+        # different results, which anything keyed by a feature-blind view of a category pair confuses.
+        cands = [c for c in inv if '[X]' in c]
+        for k, v in utab:
+            if str(Category.parse(k)) in inv and '[X]' in v:
+                cands.append(str(Category.parse(v)))
+        if cands:
+            twin = str(Category.parse(rng.choice(sorted(set(cands)))).clear_features('X'))
+            if twin not in inv:
+                inv.append(twin)
     rng.shuffle(inv)
     # `run` requires pairwise different categories: drop texts that denote the same value
     seen_values, out = set(), []
